@@ -30,40 +30,38 @@ import (
 	"verif/engine/progfam"
 )
 
-// stride thins the large progfam families in the quick tier (every stride-th
-// index, simplest first); thorough runs every index under a budget.
-func stride(tier, fam string) uint64 {
-	if tier == "thorough" {
-		return 1
-	}
-	switch fam {
-	case "F1-scope-closure":
-		return 7
-	case "F2-call-protocol":
-		return 13
-	case "F3-jumps-free", "F3-jumps-nested":
-		return 7
-	case "F4-binary":
-		return 5
-	case "F6-multiple-assignment":
-		return 5
-	}
-	return 1
-}
+// stride would thin a progfam family in the quick tier (every stride-th
+// index).  The measured cost (about 3.5 CPU-ms per program, 350 000 programs:
+// 80 s on 16 idle cores) makes thinning unnecessary: every family runs
+// entirely in both tiers, under a wall-clock budget that only matters on a
+// loaded machine.
+func stride(tier, fam string) uint64 { return 1 }
 
 func budget(tier, fam string) int {
 	if tier != "thorough" {
-		return 60
+		switch fam {
+		case "F1-scope-closure":
+			return 120
+		case "F2-call-protocol":
+			return 90
+		case "F3-jumps-free", "F3-jumps-nested":
+			return 70
+		case "F4-binary", "F6-multiple-assignment":
+			return 50
+		}
+		return 30
 	}
 	switch fam {
 	case "F1-scope-closure-len5":
 		return 300
-	case "F1-scope-closure", "F2-call-protocol", "F3-jumps-free", "F3-jumps-nested", "F8-trees":
-		return 150
+	case "F3-jumps-free", "F3-jumps-nested", "F8-trees":
+		return 170
+	case "F1-scope-closure", "F2-call-protocol":
+		return 120
 	case "F4-binary", "F6-multiple-assignment":
-		return 90
+		return 60
 	}
-	return 40
+	return 30
 }
 
 func main() {
@@ -76,7 +74,7 @@ func main() {
 		},
 		ID:    "C13",
 		Level: "model_checking",
-		Rule: "every program of the progfam families (quick: large families thinned by a fixed stride) and of a hand-written corpus x every function without free locals in it (main chunk + closed function literals rendered standalone) x argument tuples {(),(1),(nil,2),(1,2,3), own}: " +
+		Rule: "every program of the progfam families and of a hand-written corpus x every function without free locals in it (main chunk + closed function literals rendered standalone) x argument tuples {(),(1),(nil,2),(1,2,3), own}: " +
 			"load(string.dump(f)) in a fresh runtime observationally equal to a fresh f; dump deterministic (same function twice, same source recompiled), idempotent, strip mode; " +
 			"plus families U (fresh upvalues), M (load modes / reader functions), L (dump/load charged under memory and CPU limits), R (every 1-byte truncation and 1-bit flip of 5 dumps). " +
 			"states = functions dumped and reloaded; non-trivial = the function emits or raises",
